@@ -164,6 +164,12 @@ def run(shard, rec, tier, seed):
             rec.case(x)
             cnt += 1
         rec.sample({"random_input": x, "encoded": mon.apply(mon.enc, x)})
+        # the same strings again in shuffled order, encode / decode interleaved (hidden per-string state)
+        pool = [bytes(rng.choice(ALPHA + [rng.randrange(256)]) for _ in range(rng.randrange(1, 12))) for _ in range(300)]
+        for _ in range(shard["n"] // 4):
+            mon.check(rng.choice(pool))
+            cnt += 1
+            rec.evals += 1
     rec.count("self-inverse", 2 * cnt)
     rec.count("table", 2 * cnt)
     rec.count("break-safe", 4 * cnt)
